@@ -41,7 +41,8 @@ func (ex *Exec) freshBytes(st *State, n int, asStr bool) SliceV {
 		bs[i] = t
 	}
 	st.inputs = append(st.inputs, Input{kind: "bytes", n: n, bs: bs})
-	id := st.alloc(nil, &ArrayV{e: e, base: arr, pristine: true}, "input")
+	fn := func(i *Term) *Term { return tt.Select(arr, tt.Extract(i, 31, 0)) }
+	id := st.alloc(nil, &ArrayV{e: e, fn: fn}, "input")
 	nt := tt.BV(uint64(n), 64)
 	return SliceV{obj: id, off: tt.BV(0, 64), len: nt, cap: nt, str: asStr}
 }
